@@ -420,6 +420,24 @@ namespace
         const std::uint64_t seed = (std::uint64_t)c[0][8];
         Obs       obs{&w};
 
+        // watchdog: a run that deadlocks (e.g. a sender stuck for ever inside the source keeps graph stop
+        // waiting for quiescence) must not hang the harness: report and leave
+        std::atomic<bool> case_done{false};
+        std::thread       watchdog([&] {
+            const auto limit = std::chrono::steady_clock::now() + std::chrono::seconds{4 * STALL_S + 20};
+            while (!case_done.load())
+            {
+                if (std::chrono::steady_clock::now() > limit)
+                {
+                    std::fprintf(stderr, "pushq stress case deadlocked\n");
+                    out.line({96, 1});
+                    out.end_case();
+                    std::fflush(stdout);
+                    std::_Exit(5);
+                }
+                std::this_thread::sleep_for(std::chrono::milliseconds{20});
+            }
+        });
         std::promise<void>       started_promise;
         std::shared_future<void> started = started_promise.get_future().share();
         w.on_started = [&] { started_promise.set_value(); };
@@ -480,8 +498,8 @@ namespace
             {
                 auto      m = g.node_at(0).inspection_metrics().pending_items;
                 const i64 s = w.ticket.fetch_add(1);
-                if (m.has_value() && samples.size() < 400) { samples.emplace_back(s, (i64)*m); }
-                std::this_thread::sleep_for(std::chrono::microseconds{200});
+                if (m.has_value() && samples.size() < 1500) { samples.emplace_back(s, (i64)*m); }
+                std::this_thread::sleep_for(std::chrono::microseconds{40});
             }
         });
 
@@ -569,6 +587,8 @@ namespace
         sender = PushSourceSender{};
         w.senders.clear();
         w.executor.reset();
+        case_done = true;
+        watchdog.join();
     }
 }  // namespace
 
